@@ -249,7 +249,14 @@ func c14Cases(quick bool) []c14Case {
 	add("shard-sha256-hashtype", shard(func(d *pb.Data) { d.HashType = u64p(0x12) }), false, "error", []int{0})
 	// parameters whose validity the statement leaves open: value or error, never a panic
 	add("shard-long-bitfield", shard(func(d *pb.Data) { d.Data = []byte{0, 1} }), false, "no-panic", []int{0})
-	add("shard-fanout-1", shard(func(d *pb.Data) { d.Fanout = u64p(1) }), false, "no-panic", []int{0})
+	// fanouts below 8 have no whole-byte bitfield: the reference implementation and
+	// this library reject them ("every permitted fanout" is a power of two in 8..1024)
+	for _, f := range []uint64{1, 2, 4} {
+		f := f
+		add(fmt.Sprintf("shard-fanout-%d", f), shard(func(d *pb.Data) { d.Fanout = u64p(f) }), false, "error", []int{0})
+		add(fmt.Sprintf("shard-fanout-%d-no-bitfield", f), shard(func(d *pb.Data) { d.Fanout = u64p(f); d.Data = nil }), false, "error", []int{0})
+		add(fmt.Sprintf("shard-fanout-%d-bitfield-1byte", f), shard(func(d *pb.Data) { d.Fanout = u64p(f); d.Data = []byte{1} }), false, "error", []int{0})
+	}
 	add("shard-no-bitfield-with-links", shard(func(d *pb.Data) { d.Data = nil }), false, "no-panic", []int{1})
 	return out
 }
